@@ -42,7 +42,7 @@ PROBES_REQUIRED = ["workers_overlapped", "stalled_client_present", "slow_reader_
 
 KINDS = dict(c20.KINDS)
 REQ_KINDS = ["doc-small", "doc-large", "menu", "menu", "menu-root", "menu-root", "html", "mbox-folder",
-             "mbox-message", "maildir-folder", "maildir-message", "zip-listing", "zip-member", "tal",
+             "mbox-message", "maildir-folder", "maildir-message", "zip-listing", "zip-member", "zip2-member", "tal",
              "notfound", "gophermap", "url", "pyg", "script", "gz"]
 PROTOS = c20.PROTOS + ["wap-auto", "http", "https"]
 TIMEOUT = 60
